@@ -20,6 +20,36 @@ def mk(kind, f, comment=''):
 
 
 def gen_preamble(rng):
+    """a preamble whose full expansion stays small enough to be evaluated by the model in reasonable time (the number of
+    combinations is the product of the value counts along the references: a handful of the generated preambles run
+    into the tens of thousands, which says nothing about the property and takes minutes)"""
+    while True:
+        entries, att, meta = gen_preamble1(rng)
+        count = {}
+        vals = {}
+        for e in entries:
+            if e['kind'] == 'variable':
+                vals.setdefault(e['f'][0], []).extend(e['f'][1])
+
+        def cnt(name, depth=0):
+            if depth > 12 or name not in vals:
+                return 1
+            if name in count:
+                return count[name]
+            t = 0
+            for v in vals[name]:
+                c = 1
+                for r_ in REF.findall(v):
+                    c *= cnt(r_, depth + 1)
+                t += c
+            count[name] = t
+            return t
+        total = sum(cnt(n) for n in vals)
+        if total <= 1500:
+            return entries, att, meta
+
+
+def gen_preamble1(rng):
     """returns (entries, attachments, meta) — acyclic by construction unless meta says otherwise"""
     nvars = rng.randint(1, 5)
     names = rng.sample(['v0', 'v01', 'bin', 'bin_dirs', 'lib', 'libexec', 'foo', 'foo_x', 'a', 'ab'], nvars)
